@@ -52,10 +52,10 @@ impl Scenario for C07S {
     }
     fn count(&self, tier: Tier, variant: &str) -> u64 {
         match (tier, variant) {
-            (Tier::Quick, "os") => 8000,
-            (Tier::Quick, _) => 2000,
-            (Tier::Thorough, "os") => 400_000,
-            (Tier::Thorough, _) => 100_000,
+            (Tier::Quick, "os") => 20_000,
+            (Tier::Quick, _) => 6000,
+            (Tier::Thorough, "os") => 600_000,
+            (Tier::Thorough, _) => 200_000,
         }
     }
     fn rule(&self) -> &'static str {
